@@ -495,6 +495,11 @@ def dataset_spec(draw, convs=ALL_CONVS, max_vars=3, min_vars=1, max_extra=2,
     # the dimension name must not clash with grid dimension names
     taken = {d for dims in specs.grid_dims(spec).values() for d in dims}
     spec["extra"] = {k: v for k, v in spec["extra"].items() if k not in taken}
+    if conv == "shoc_simple" and "time" in spec["extra"]:
+        # SHOC simple files always carry a 'time' coordinate variable for their 'time'
+        # dimension (ShocSimple.time_coordinate relies on it); a bare dimension of that name
+        # is not a SHOC simple dataset.  The time coordinate itself is added where needed.
+        spec["extra"]["tstep"] = spec["extra"].pop("time")
     spec["vars"] = draw(variables(spec, max_vars=max_vars, min_vars=min_vars,
                                   **(var_kwargs or {}))) if with_vars else []
     spec["mode"] = draw(st.sampled_from(list(modes)))
